@@ -212,7 +212,7 @@ fn abandoned_pull_scenario() -> ScenFn {
 
 pub fn units(thorough: bool) -> Vec<Unit> {
     use COp::*;
-    let d = if thorough { 4 } else { 3 };
+    let d = if thorough { 5 } else { 3 };
     let mut v = vec![];
     let publisher = vec![Publish(T0, 2)];
     let nacker = vec![PullNow(S0, 1), NackLast(S0), PullNow(S0, 10)];
